@@ -21,6 +21,7 @@ CONSTANTS
   PairFirst = {1}
   TypedFlush = {TRUE}
   Interleave = FALSE
+  MaxAbandon = 0
   Bug = {"FlushKeepsBuffer"}
 INVARIANTS DeliveredIsPrefixOfSent
 CHECK_DEADLOCK FALSE
